@@ -188,6 +188,32 @@ def gsfa (hf : HF) (gs : List AddrIndex) (a : Bytes) (limit : Nat) : Ans (List T
   | .ok l => .ok (l.take limit)
   | r => r
 
+/-- `before` (exclusive): everything up to and including the transaction with that signature is skipped;
+    a `before` that never shows up leaves nothing -/
+def dropBefore (before : Option Bytes) (l : List Tx) : List Tx :=
+  match before with
+  | none => l
+  | some b => (l.dropWhile fun t => t.sig != b).drop 1
+
+/-- `until` (inclusive): the listing stops after the transaction with that signature -/
+def cutUpto (upto : Option Bytes) : List Tx → List Tx
+  | [] => []
+  | t :: r =>
+    match upto with
+    | none => t :: r
+    | some u => if t.sig = u then [t] else t :: cutUpto upto r
+
+/-- the paging of `iterBeforeUntil`: the `before` / `until` / `limit` state is carried across the epochs, so it acts
+    on the concatenation of the per-epoch lists -/
+def page (limit : Nat) (before upto : Option Bytes) (l : List Tx) : List Tx :=
+  cutUpto upto ((dropBefore before l).take limit)
+
+/-- getSignaturesForAddress with `limit`, `before`, `until` -/
+def gsfaPaged (hf : HF) (gs : List AddrIndex) (a : Bytes) (limit : Nat) (before upto : Option Bytes) : Ans (List Tx) :=
+  match gsfaAll (fun g => gsfaEpoch hf g a) gs with
+  | .ok l => .ok (page limit before upto l)
+  | r => r
+
 def gsfaNoCheck (hf : HF) (gs : List AddrIndex) (a : Bytes) (limit : Nat) : Ans (List Tx) :=
   match gsfaAll (fun g => gsfaEpochNoCheck hf g a) gs with
   | .ok l => .ok (l.take limit)
